@@ -1,8 +1,11 @@
 package main
 
 import (
+	"fmt"
 	"go/token"
+	"go/types"
 	"sort"
+	"strings"
 
 	"golang.org/x/tools/go/ssa"
 )
@@ -387,4 +390,122 @@ func goOrDeferUse(mc *ssa.MakeClosure) (ssa.Instruction, bool) {
 		}
 	}
 	return nil, false
+}
+
+// flowsTo: may the value v (defined in root's inline view) reach an
+// instruction accepted by sink, following copies only - phis, conversions,
+// stores into and loads from local variables and their fields, struct values
+// carrying it in a field (returned by value, copied, passed on), arguments
+// and results of the helpers explored inline with root. Existential and
+// flow-insensitive: used where the rule asks "is this result used at all by X".
+func flowsTo(c *Ctx, root *ssa.Function, v ssa.Value, sink func(user ssa.Instruction, v ssa.Value) (bool, string)) (bool, string) {
+	inl := map[*ssa.Function]bool{}
+	for _, f := range inlineFuncs(root) {
+		inl[f] = true
+	}
+	type item struct {
+		v     ssa.Value
+		field string // "" = v itself; else v is a struct (or pointer to a local struct) carrying the value in this field path
+	}
+	seen := map[item]bool{}
+	work := []item{{v, ""}}
+	push := func(v ssa.Value, f string) {
+		it := item{v, f}
+		if v != nil && !seen[it] {
+			seen[it] = true
+			work = append(work, it)
+		}
+	}
+	fname := func(t types.Type, i int) string {
+		if f := fieldOf(t, i); f != nil {
+			return f.Name()
+		}
+		return fmt.Sprint(i)
+	}
+	for len(work) > 0 && len(seen) < 4000 {
+		it := work[0]
+		work = work[1:]
+		refs := it.v.Referrers()
+		if refs == nil {
+			continue
+		}
+		for _, u := range *refs {
+			if it.field == "" {
+				if ok, how := sink(u, it.v); ok {
+					return true, how
+				}
+			}
+			switch x := u.(type) {
+			case *ssa.Phi:
+				push(x, it.field)
+			case *ssa.Convert:
+				push(x, it.field)
+			case *ssa.ChangeType:
+				push(x, it.field)
+			case *ssa.Store:
+				if x.Val != it.v {
+					continue
+				}
+				switch a := x.Addr.(type) {
+				case *ssa.Alloc:
+					// the variable now carries it (whole, or in the same field)
+					push(a, "*"+it.field)
+				case *ssa.FieldAddr:
+					if al, ok := a.X.(*ssa.Alloc); ok && it.field == "" {
+						push(al, "*."+fname(a.X.Type(), a.Field))
+					}
+				}
+			case *ssa.UnOp:
+				if x.Op == token.MUL && strings.HasPrefix(it.field, "*") {
+					push(x, strings.TrimPrefix(it.field, "*")) // load of the whole variable
+				}
+			case *ssa.FieldAddr:
+				if strings.HasPrefix(it.field, "*.") && it.field[2:] == fname(x.X.Type(), x.Field) {
+					push(x, "*") // address of the carrying field: loads of it give the value
+				}
+			case *ssa.Field:
+				if strings.HasPrefix(it.field, ".") && it.field[1:] == fname(x.X.Type(), x.Field) {
+					push(x, "")
+				}
+			case *ssa.Extract:
+				// handled from the call below
+			case *ssa.Return:
+				g := x.Parent()
+				if g == root || !inl[g] {
+					continue
+				}
+				for k, r := range x.Results {
+					if r != it.v {
+						continue
+					}
+					for _, site := range c.P.CallersOf(g) {
+						call, ok := site.(*ssa.Call)
+						if !ok || !inl[site.Parent()] {
+							continue
+						}
+						if len(x.Results) == 1 {
+							push(call, it.field)
+							continue
+						}
+						for _, r2 := range *call.Referrers() {
+							if e, ok := r2.(*ssa.Extract); ok && e.Index == k {
+								push(e, it.field)
+							}
+						}
+					}
+				}
+			case *ssa.Call:
+				g := x.Call.StaticCallee()
+				if g == nil || !inl[g] || g == root || x.Call.IsInvoke() {
+					continue
+				}
+				for i, a := range x.Call.Args {
+					if a == it.v && i < len(g.Params) {
+						push(g.Params[i], it.field)
+					}
+				}
+			}
+		}
+	}
+	return false, ""
 }
